@@ -83,6 +83,8 @@ def generate(rng, tier, index):
     budget_hi = rng.choice([4, 8, 12, 18, 25])
     solved = [False] * n_sessions
     keys = [set() for _ in range(n_sessions)]
+    use_witness = [rng.random() < 0.65 for _ in range(n_sessions)]
+    witness = [[] for _ in range(n_sessions)]
     # initial declarations
     for s in range(n_sessions):
         for _ in range(rng.randint(1, max(1, max_vars // 2))):
@@ -108,8 +110,13 @@ def generate(rng, tier, index):
             g = refsem.Gen(rng, decls[s])
             n = rng.choice([1, 1, 1, 2, 3])
             cs = []
+            if use_witness[s]:
+                # extend the hidden witness over variables declared since the last ensure
+                witness[s] = witness[s] + refsem.gen_witness(rng, decls[s][len(witness[s]) :])
             for _ in range(n):
-                c = g.gen_b(rng.randint(1, budget_hi), allow_lit=rng.random() < 0.05)
+                c = refsem.gen_constraint(
+                    rng, g, rng.randint(1, budget_hi), witness[s] if use_witness[s] else None, allow_lit=rng.random() < 0.05
+                )
                 cs.append(c)
             ops.append({"s": s, "op": "ensure", "cs": cs, "nest": rng.randint(0, 2)})
         elif k == "find_answer":
@@ -224,6 +231,7 @@ class _Session:
         self.decls = []
         self.constraints = []  # ASTs posted so far
         self.models_cache = None
+        self.keys = set()
 
 
 def _nest(cs, nest):
@@ -247,6 +255,16 @@ def run(sc) -> RunResult:
     sessions = []
     for sd in sc["sessions"]:
         sessions.append(_Session(cspuz.Solver(), "z3" if sd["backend"] == "z3" else Sim))
+    last_s = None
+    z3cap = {}
+    with peers.counted_z3(z3cap):
+        _run_ops(sc, res, sessions, ctx, z3cap)
+    return res
+
+
+def _run_ops(sc, res, sessions, ctx, z3cap):
+    import warnings
+
     last_s = None
     for n_op, op in enumerate(sc["ops"]):
         S = sessions[op["s"]]
@@ -291,20 +309,32 @@ def run(sc) -> RunResult:
                         res.hit("op:" + t)
             elif k == "add_key":
                 S.solver.add_answer_key([S.vars[i] for i in op["ids"]])
+                S.keys.update(op["ids"])
             elif k == "scribble":
                 S.vars[op["id"]].sol = op["val"]
                 res.hit("perturb:sol_scribble")
             elif k == "solve":
-                import warnings
-
+                # state-changing step only (C02 decides its result); bounded so that a broken
+                # refute loop cannot hang the run
+                bound = 2 + sum((2 if S.decls[i]["t"] == "b" else S.decls[i]["hi"] - S.decls[i]["lo"] + 1) for i in S.keys)
                 with warnings.catch_warnings():
                     warnings.simplefilter("ignore")
                     ctx.reset_calls()
-                    r = S.solver.solve(backend=S.backend)
+                    ctx.cap = bound
+                    z3cap["calls"] = 0
+                    z3cap["cap"] = bound
+                    try:
+                        r = S.solver.solve(backend=S.backend)
+                    except peers.NoReturnWithinBound:
+                        r = None
+                        res.hit("solve_between_did_not_return_within_bound")
                 res.hit("perturb:solve_between")
-                res.log("op", n_op, "solve", bool(r))
+                res.log("op", n_op, "solve", r)
             elif k == "find_answer":
                 ctx.reset_calls()
+                ctx.cap = 4
+                z3cap["calls"] = 0
+                z3cap["cap"] = 4
                 r = S.solver.find_answer(backend=S.backend)
                 _check_find_answer(res, S, r, n_op)
             else:
